@@ -143,7 +143,7 @@ DECOY_RE = re.compile(r'open(?:at)?\((?:[^,]*, )?"([^"]*decoy[^"]*)"[^)]*\)\s*=\
 def traced(ctx, cwd, args):
     tr = os.path.join(cwd, "..", "trace.txt") if False else os.path.join(ctx.work, "trace-%d.txt" % (hash((cwd, tuple(args))) % 10**9))
     cmd = ["strace", "-f", "-e", "trace=open,openat", "-o", tr, os.path.join(ctx.bindir, "bkl"), "-f", "json"] + args
-    env = {"PATH": "/usr/bin:/bin", "HOME": cwd, "TMPDIR": ctx.work}
+    env = core.cover_env({"PATH": "/usr/bin:/bin", "HOME": cwd, "TMPDIR": ctx.work})
     try:
         p = subprocess.run(cmd, cwd=cwd, env=env, stdout=subprocess.PIPE, stderr=subprocess.PIPE, timeout=60)
         rc, out, err = p.returncode, p.stdout, p.stderr.decode("utf-8", "replace")
